@@ -434,6 +434,9 @@ def build_model(case, mon):
         if case.get("eos") is not None and case["V"] >= 2 and (case["width"] + case["V"]) % 3 == 0:
             lm.post_eos_zero = case["eos"] % case["V"]
             mon.cls("lm_forbids_eos_after_eos")
+        if (case["width"] + 2 * case["V"] + n_el) % 3 == 1:
+            lm.rebuild_state = True
+            mon.cls("lm_rebuilds_start_state_on_every_update_input")
         cond = case.get("cond")
         conds = [0] * n_el if cond is None else list(cond)
         init = None if cond is None else lm.initial_state(cond)
